@@ -503,7 +503,7 @@ def nontrivial(case, o):
 
 def run(ctx):
     quick = ctx.tier == "quick"
-    n_surf, n_sd, n_poly, n_vol = (210, 40, 50, 90) if quick else (7000, 1000, 1000, 2200)
+    n_surf, n_sd, n_poly, n_vol = (210, 40, 50, 90) if quick else (5500, 800, 800, 1800)
     max_faces = 200 if quick else 500
     ctx.rule = ("surfaces from 18 seed kinds (triangle/quad/polygon faces, disks, annuli, tori, closed polyhedra, holes, "
                 "two components; renumbered, rotated, shuffled) with 0-4 editor operations in one block (at most 5 levels "
